@@ -16,7 +16,7 @@ ToSet(s) == {s[i] : i \in DOMAIN s}
 Norm(ev) ==
   [ev EXCEPT !.op = [op |-> ev.op.op, id |-> ev.op.id, call |-> ev.op.call, who |-> ev.op.who, auth |-> ev.op.auth,
                      delay |-> ev.op.delay, entry |-> ev.op.entry, metas |-> ev.op.metas, sub |-> ev.op.sub,
-                     ctxs |-> ev.op.ctxs, xauth |-> ToSet(ev.op.xauth), dt |-> ev.op.dt],
+                     ctxs |-> ev.op.ctxs, xauth |-> ToSet(ev.op.xauth), xskip |-> ev.op.xskip, dt |-> ev.op.dt],
              !.obs = [min |-> ev.obs.min, admin |-> ev.obs.admin, roles |-> ToSet(ev.obs.roles),
                       radm |-> ev.obs.radm, ops |-> ev.obs.ops]]
 
